@@ -288,6 +288,8 @@ def lookup_attribute_facts(ctx, rid):
     R.check(rid, default == "id" or not has_default, "default lookup attribute of the generic key-value node is the code",
             node=fi.node, function=ctx.fq(fi), mod=fi.module, expected="attribute='id'", found=f"default {default!r}")
 
+    keys_looked_up = {}
+
     def lookup_attr_used(qual):
         fi, outs = _outs(ctx, qual)
         found = set()
@@ -303,6 +305,8 @@ def lookup_attribute_facts(ctx, rid):
                             if isinstance(kw, App) and kw.op == "kw" and kw.args[0] in [Const("attribute")] + [Const(k_) for k_, v_ in getattr(s.args[0].obj, "kw_alias", {}).items() if v_ == "attribute"]:
                                 attr = kw.args[1]
                         found.add(attr.v if isinstance(attr, Const) else repr(attr))
+                        if args and not (isinstance(args[0], App) and args[0].op == "kw"):
+                            keys_looked_up.setdefault(qual, []).append(args[0])
         return fi, found
 
     for qual, want in (("SuitKeyValue.from_obj", "name"), ("SuitKeyValue.from_cbor", "id"),
@@ -315,6 +319,15 @@ def lookup_attribute_facts(ctx, rid):
             continue
         R.check(rid, found == {want}, f"{qual} selects the entry by {want}", node=fi.node, function=ctx.fq(fi),
                 mod=fi.module, expected=f"lookup attribute {want!r}", found=f"lookup attribute(s) {sorted(found)}")
+        # the key that is looked up is the key of the item itself: a key that is rewritten first (case folding, stripping, a
+        # conversion) is compared with registered names / codes it was never spelled as - entries whose registered spelling the
+        # rewriting does not produce can no longer be named, others gain spellings that collide
+        changed = [k_ for k_ in keys_looked_up.get(qual, []) if any(
+            isinstance(u, App) and (u.op.startswith("meth:") and u.op not in ("meth:items", "meth:keys", "meth:values", "meth:get")
+                                    or u.op in ("call:str", "call:int", "call:repr", "fmt", "cat", "call:bytes")) for u in subterms(k_))]
+        R.check(rid, not changed, f"{qual} looks up the key as it is given", node=fi.node, function=ctx.fq(fi), mod=fi.module,
+                expected=f"the {want} compared with the table is the item's own key, unmodified",
+                found=f"the key is rewritten before the lookup: {repr(changed[0])[:200]}" if changed else "", key_extra=qual + "rawkey")
 
     # unknown name is rejected: from_obj has a raise ValueError guarded by the failed lookup
     fi, outs = _outs(ctx, "SuitKeyValue.from_obj")
@@ -948,6 +961,17 @@ def python_traps(ctx, relpaths):
     rid = f"{ctx.prop}-G3 language traps"
     R.rule(rid, 0, "no generator consumed twice; no identity comparison with a literal")
     n = 0
+    # classes of the description / wire model (derived from SuitObject) that give their objects a content-dependent truth value
+    sized_ = set()
+    for m_ in repo.modules.values():
+        for c_ in m_.classes.values():
+            try:
+                mro_ = repo.mro(c_)
+            except Exception:
+                continue
+            if any(b_.name == "SuitObject" for b_ in mro_) and any(isinstance(d_, (ast.FunctionDef, ast.AsyncFunctionDef)) and d_.name in ("__len__", "__bool__")
+                                                                 for d_ in c_.node.body):
+                sized_.add(c_)
     for m in repo.modules.values():
         if m.relpath not in relpaths:
             continue
@@ -1009,6 +1033,39 @@ def python_traps(ctx, relpaths):
                 if m.functions[tgt_.id].decorators:
                     continue  # a decorated function may be any object
                 bad.append((x_, f"{ast.unparse(x_)[:40]}: {tgt_.id} is the module-level function {tgt_.id}() here, not a value (a renamed parameter / local left behind?)"))
+            # truthiness of a model object.  Objects of the description / wire model are plain objects (always true) unless a class of
+            # the model defines __len__ / __bool__; then `if not obj` / `obj or ...` on the result of from_obj / from_cbor also
+            # takes the branch for an *empty* but present item (an empty command list, an empty index list)
+            if sized_:
+                model_names = {}
+                for a in walk_no_nested(f.node):
+                    tgt_, v = None, None
+                    if isinstance(a, ast.Assign) and len(a.targets) == 1 and isinstance(a.targets[0], ast.Name):
+                        tgt_, v = a.targets[0].id, a.value
+                    elif isinstance(a, ast.NamedExpr) and isinstance(a.target, ast.Name):
+                        tgt_, v = a.target.id, a.value
+                    if tgt_ and isinstance(v, ast.Call) and isinstance(v.func, ast.Attribute) and v.func.attr in ("from_obj", "from_cbor"):
+                        recv = repo.resolve_expr(m, v.func.value) if isinstance(v.func.value, (ast.Name, ast.Attribute)) else None
+                        if recv and recv[0] == "class" and not any(c_ in sized_ for c_ in repo.mro(recv[1])):
+                            continue  # a named class of the model whose objects are always true
+                        model_names[tgt_] = a
+                if model_names:
+                    tests = []
+                    for x in walk_no_nested(f.node):
+                        if isinstance(x, (ast.If, ast.While, ast.IfExp)):
+                            tests.append(x.test)
+                        elif isinstance(x, ast.BoolOp):
+                            tests.extend(x.values)
+                        elif isinstance(x, ast.UnaryOp) and isinstance(x.op, ast.Not):
+                            tests.append(x.operand)
+                        elif isinstance(x, ast.Call) and isinstance(x.func, ast.Name) and x.func.id == "bool" and x.args:
+                            tests.append(x.args[0])
+                    for t_ in tests:
+                        if isinstance(t_, ast.NamedExpr):
+                            t_ = t_.target
+                        if isinstance(t_, ast.Name) and t_.id in model_names:
+                            bad.append((t_, f"truth value of the model object {t_.id}: {', '.join(sorted(c_.name for c_ in sized_))} define(s) __len__ / __bool__, "
+                                            f"so an empty but present item counts as absent"))
             if bad:
                 for node, what in bad:
                     R.fail(rid, f"{ctx.fq(f)}: {what}", mod=m, node=node, function=ctx.fq(f), expected="the value is computed once into a list / compared with ==",
